@@ -4,7 +4,7 @@ import json
 
 import numpy as np
 
-from . import common, cons, universe, xt
+from . import common, cons, place, universe, xt
 
 PID = "C19"
 
@@ -190,7 +190,35 @@ def run_hybrid(first, tier, res):
                 res.oracles["roundtrip"] += 1
                 if not veq(before, after):
                     bad("C19.roundtrip", "rebuilt-object-differs", feat, case, "%r -> %r" % (before, after))
-                else:
+                    continue
+                # the same rebuild into memory that was used before (a freed region full of old bytes) and over a live object
+                ok = True
+                for where in ("dirty-region", "over-live-object"):
+                    res.transitions += 1
+                    res.events["from_dict"] += 1
+                    try:
+                        if where == "dirty-region":
+                            kw = place.place("dirtybig" if (res.cases % 2) else "dirtybig2", 64, res.cases).kw
+                            kw = dict(_buffer=kw["_buffer"])
+                        else:
+                            other = {pn: (w if not veq(w, v) else None) for (pn, xn, k), (vlab, v), cand in zip(fields, choice, vals) for w in [next((c[1] for c in cand if not veq(c[1], v)), None)]}
+                            if any(w is None for w in other.values()):
+                                continue
+                            live = H(**other)
+                            kw = dict(_buffer=live._buffer, _offset=live._offset)
+                        h3 = H.from_dict(d, **kw)
+                        after3 = read_hybrid(h3, fields)
+                    except Exception as e:
+                        if where == "over-live-object":
+                            res.skipped["rebuild-over-live-object-raises:" + common.exc_failure(e)] += 1
+                            continue
+                        bad("C19.from_dict", "from_dict-raises:" + common.exc_failure(e), dict(feat, where=where), case, repr(e))
+                        ok = False
+                        continue
+                    if not veq(before, after3):
+                        bad("C19.roundtrip", "rebuilt-object-differs", dict(feat, where=where), case, "rebuilt %s: %r -> %r" % (where, before, after3))
+                        ok = False
+                if ok:
                     res.outcomes["ok:hybrid"] += 1
                     res.states += 1
 
